@@ -11,7 +11,7 @@ ALL = ['C%02d' % i for i in range(1, 21)]
 CHECKS = {
     'C01': (['FM94.tla', 'FM94Gen.tla', 'Tables.tla', 'Column.tla', 'Framing.tla', 'Wide.tla', 'Bits.tla'],
             'TLA+ spec FM94.tla (FM-94 template walker as a state machine, tables read as data) model-checked by TLC over a template '
-            'catalogue x factors x bitmap bits x compression x subsets; every TLC behaviour (message octets assembled by Framing.tla) is '
+            'catalogue plus grammar-derived WF templates per seed (vf/gen.py) x factors x bitmap bits x compression x subsets; every TLC behaviour (message octets assembled by Framing.tla) is '
             'replayed into the real Decoder; sample corpus parsed by the specification in consume form and compared, with hook-recorded bit cursors',
             'TLC enumerates every behaviour of the walker specification inside the stated bounds (invariants TypeOK, MissingIffAllOnes, '
             'LinksPointBack, CursorIsSumOfWidths, ...); each behaviour carries a complete message built without pybufrkit and the real '
@@ -21,7 +21,7 @@ CHECKS = {
             '(vf/pyb.py). Templates stay inside WF (DESIGN 2.6). Exhaustive only inside the bounds written into the evidence.',
             'DESIGN.md section 3 C01'),
     'C02': (['FM94.tla', 'FM94Gen.tla', 'Column.tla', 'Framing.tla'],
-            'TLA+ spec FM94.tla in produce form gives the canonical bits; TLC behaviours replayed into the real Encoder: uncompressed output '
+            'TLA+ spec FM94.tla in produce form gives the canonical bits (catalogue + grammar-derived templates); TLC behaviours replayed into the real Encoder: uncompressed output '
             'byte-identical to the message assembled by Framing.tla, compressed output re-read by the specification (consume form, second TLC run); '
             're-encoded corpus parsed by the specification',
             'Every TLC behaviour supplies values and the independently assembled message; the real encoder must reproduce it byte for byte when '
@@ -32,7 +32,7 @@ CHECKS = {
             'DESIGN.md section 3 C02'),
     'C03': (['Quant.tla', 'FM94.tla', 'Tables.tla'],
             'TLA+ spec Quant.tla (value<->raw relation over exact decimals, parameters from the table files) model-checked by TLC on all inputs '
-            'around the range ends; every (case, input) replayed into the real Encoder/Decoder and judged by the relation; fixpoint E(render(D(b)))=b '
+            'around the range ends, incl. compressed columns of off-grid inputs judged entry by entry (PointwiseColumn); every (case, input) replayed into the real Encoder/Decoder and judged by the relation; fixpoint E(render(D(b)))=b '
             'on FM94 behaviours and double round trip on the corpus',
             'TLC checks the relation (half-unit bound, no wrap / clip, refusal when nothing fits, fixpoint on the grid) for every enumerated input and '
             'emits the permitted outcomes; the real encoder/decoder outcome for the same input must be one of them.',
@@ -75,7 +75,7 @@ CHECKS = {
             'DESIGN.md section 3 C04'),
     'C11': (['Stream.tla', 'Framing.tla'],
             'TLA+ spec Stream.tla (scanner loop as a state machine, one action per loop exit, concrete octets assembled in the spec) model-checked by TLC over '
-            'all streams of <=2/3 pool messages x separators x modes; every terminal state replayed into generate_bufr_message with hooks on: delivered bytes, '
+            'all streams of <=2/3 pool messages x separators x modes, plus a length sweep (messages of 256/509 consecutive total lengths, every value of the low length octet); every terminal state replayed into generate_bufr_message with hooks on: delivered bytes, '
             'end status and every loop iteration (found-at, next cursor, outcome) compared with the history variable; CLI split / info -c on a sample',
             'Exhaustive over the bounded space of streams on the specification (YieldsExactlyMessages, DecoyNeverStartsMessage, ...) and on the implementation, '
             'with per-iteration trace comparison.',
@@ -113,13 +113,13 @@ CHECKS = {
             'DESIGN.md section 3 C14'),
     'C16': (['Query.tla', 'Wiring.tla', 'FM94Tree.tla'],
             'TLA+ spec Query.tla (path evaluation with slices, replication envelopes, bare IDs, subset selectors) over Wiring.tla trees; TLC evaluates every path that exists in every '
-            'behaviour (depth 4/6) with every slice form at every position; each (message, subset, path) replayed into DataQuerent on interpreted and compiled decodes, compressed and uncompressed',
+            'behaviour (depth 4/6) with every slice form at every position; each (message, subset, path) replayed into DataQuerent on interpreted and compiled decodes, compressed and uncompressed, per subset (@[s]) and over the whole message (every subset, reversed selector)',
             'The specification is the executable meaning of the path language; results are compared value by value (nested structure included) for every generated path.',
             'Trusted: TLC; Query.tla/Wiring.tla; paths are generated from the specification tree.',
             'DESIGN.md section 3 C16'),
     'C18': (['Script.tla'],
             'TLA+ spec Script.tla: reference semantics on fragment sequences vs character automaton, model-checked by TLC over all scripts of <=4/5 fragments; every script replayed into '
-            'process_embedded_query_expr / ScriptRunner; nesting-level laws validated by TLC on recorded query results of real messages',
+            'process_embedded_query_expr / ScriptRunner; nesting-level laws validated by TLC on recorded query results of real messages (paths crossed with subset selectors, incl. selections whose first subset contributes nothing)',
             'Exhaustive over the bounded fragment space on both sides; the level laws are checked by TLC on recorded implementation output (trace validation).',
             'Trusted: TLC; Script.tla; escape-free literals.',
             'DESIGN.md section 3 C18'),
@@ -146,7 +146,7 @@ CHECKS = {
             'DESIGN.md section 3 C13'),
     'C20': (['TableDef.tla', 'Tables.tla', 'FM94.tla'],
             'TLA+ spec TableDef.tla (NCEP definition messages written and read back by the specification; entries in force along a stream) model-checked by TLC; data messages generated by '
-            'FM94.tla under the extended tables (ExtraB/ExtraD); each stream scanned by generate_bufr_message in a fresh subprocess and compared',
+            'FM94.tla under the extended tables (ExtraB/ExtraD) for two master table versions alternating in the stream; each stream scanned by generate_bufr_message in a fresh subprocess and compared',
             'Streams of 1..3 definition messages over a pool with overrides, code/character/negative-scale elements, sequences with replication and the NCEP replication-only form; '
             'all FM94 structure of the data templates.',
             'Trusted: TLC; TableDef.tla; Table B version 13 for the layout elements; NcepReplicationOnlySequence named deviation.',
